@@ -78,6 +78,16 @@ var lockTargets = []lockTarget{
 	// aggregators: Report is called by every instance
 	{pkg: "core/aggregator/netsample", typ: "phoutAggregator", methods: []string{"Report"}},
 	{pkg: "core/aggregator", typ: "Reporter", methods: []string{"Report", "dropSample"}},
+	// the components of a scenario definition: one object per step, called by every instance for its own requests and
+	// responses; their fields are configuration (frozen after set-up)
+	{pkg: "components/providers/scenario/http/postprocessor", typ: "VarHeaderPostprocessor"},
+	{pkg: "components/providers/scenario/http/postprocessor", typ: "VarJsonpathPostprocessor"},
+	{pkg: "components/providers/scenario/http/postprocessor", typ: "VarXpathPostprocessor"},
+	{pkg: "components/providers/scenario/http/postprocessor", typ: "AssertResponse", setup: []string{"Validate"}},
+	{pkg: "components/providers/scenario/http/preprocessor", typ: "Preprocessor", setup: []string{"InitIterator"}},
+	{pkg: "components/providers/scenario/grpc/preprocessor", typ: "PreparePreprocessor", setup: []string{"InitIterator"}},
+	{pkg: "components/providers/scenario/grpc/postprocessor", typ: "AssertResponse", setup: []string{"Validate"}},
+	{pkg: "components/providers/scenario/vs", typ: "SourceStorage", setup: []string{"AddSource"}},
 }
 
 func init() {
